@@ -86,6 +86,18 @@ class PathSummary:
                     self.parent_calls.append((name.split("::")[-1], args[1:], res))
             elif ev[0] == "branch":
                 self.branches.append(ev)
+        # identity: saturating_sub(a, b) - saturating_sub(b, a) == a - b  (charging only the growth)
+        for k in list(self.net):
+            if k[0] == "call" and k[1].endswith("saturating_sub") and self.net.get(k, 0) > 0:
+                a, b = k[2][0], k[2][1]
+                for k2 in list(self.net):
+                    if k2[0] == "call" and k2[1].endswith("saturating_sub") and k2[2][0] == b and k2[2][1] == a and self.net[k2] == -self.net[k]:
+                        n = self.net[k]
+                        del self.net[k]
+                        del self.net[k2]
+                        self.net[a] += n
+                        self.net[b] -= n
+                        break
         self.net = Counter({k: v for k, v in self.net.items() if v != 0})
 
     def parent_result(self):
@@ -230,7 +242,7 @@ def check_method(chk, m, fn):
                    "success:charge-first", where, "used is charged before the parent is asked",
                    "the parent allocator is called before the request is charged to used")
         # peak rule
-        post = [Counter(linear(("binop", "Add", r, a))) for r, a in ps.adds if a == added]
+        post = [Counter(linear(("binop", "Add", r, a))) for r, a in ps.adds]
         okmax = any(Counter(linear(v)) in post for v in ps.maxes)
         chk.decide(okmax, "peak", fk, "success:fetch_max", where,
                    "max.fetch_max(post-add value) on the success path",
